@@ -4,6 +4,7 @@ do the static checks notice?
 
   selftest/sweep.py run [--limit N] [--workers K]     phase 1 (tests) + phase 2 (checks) -> selftest/sweep_results.jsonl
   selftest/sweep.py report                            summary of sweep_results.jsonl
+  selftest/sweep.py benign [--limit N] [--workers K] [--seed S]   behaviour-preserving rewrites (gomutate -benign): every report is a false alarm
 
 Mutants come from bin/gomutate (statement deletion, operator replacement, condition negation, literal +-1, break<->continue)
 over the non-test sources the properties anchor in. Each worker owns one scratch copy of /repo under mktemp (removed at the end);
@@ -89,13 +90,86 @@ def run(limit, workers, skip=0):
         shutil.rmtree(d, ignore_errors=True)
     report()
 
+def apply_edits(src, m):
+    es = m.get("edits") or [{"start": m["start"], "end": m["end"], "new": m["new"]}]
+    for e in sorted(es, key=lambda e: -e["start"]):
+        src = src[:e["start"]] + e["new"].encode() + src[e["end"]:]
+    return src
+
+def evaluate_benign(m):
+    """a behaviour-preserving rewrite: build, run every check; anything reported is a false alarm (the test suite is
+    run only then, to confirm the rewrite really is harmless)"""
+    d = scratch()
+    repo = os.path.join(d, "repo")
+    path = os.path.join(repo, m["file"])
+    src = open(path, "rb").read()
+    try:
+        open(path, "wb").write(apply_edits(src, m))
+        b = subprocess.run(["go", "build", "./..."], cwd=repo, env=ENV, capture_output=True, text=True)
+        if b.returncode != 0:
+            m["status"] = "nocompile"; m["err"] = b.stderr[:200]; return m
+        c = subprocess.run([CHECKER, "all", "--root", repo], env=dict(ENV, VERIF_DIR=os.path.join(d, "verif")),
+                           capture_output=True, text=True)
+        fired = sorted({l.split("]")[0].split("[")[1] for l in c.stdout.splitlines() if l.startswith("  C") and "[" in l})
+        m["status"] = "silent"
+        if fired or c.returncode not in (0,):
+            m["status"] = "alarm"
+            m["fired"] = fired
+            m["reports"] = [l.strip()[:300] for l in c.stdout.splitlines() if l.startswith("  C")][:6]
+            if not fired:
+                m["reports"] = (c.stdout + c.stderr)[-600:].splitlines()
+            try:
+                t = subprocess.run(["unshare", "-rn", "sh", "-c", "ip link set lo up; go test -vet=off -count=1 ./..."], cwd=repo, env=ENV,
+                                   capture_output=True, text=True, timeout=180)
+                m["tests_pass"] = t.returncode == 0
+            except subprocess.TimeoutExpired:
+                m["tests_pass"] = False
+        return m
+    finally:
+        open(path, "wb").write(src)
+
+def run_benign(limit, workers, seed):
+    global CHECKER
+    out_path = os.path.join(VERIF, "selftest", "benign_results.jsonl")
+    CHECKER = os.path.join(tempfile.mkdtemp(prefix="ankosweepbin."), "ankocheck")
+    shutil.copy(os.path.join(VERIF, "bin/ankocheck"), CHECKER)
+    dirs.append(os.path.dirname(CHECKER))
+    p = subprocess.run([os.path.join(VERIF, "bin/gomutate"), "-benign"] + FILES, cwd=REPO, capture_output=True, text=True)
+    muts = [json.loads(l) for l in p.stdout.splitlines()]
+    random.Random(seed).shuffle(muts)
+    if limit:
+        muts = muts[:limit]
+    done = 0
+    with open(out_path, "w") as out, concurrent.futures.ThreadPoolExecutor(max_workers=workers) as ex:
+        for m in ex.map(evaluate_benign, muts):
+            m.pop("edits", None) if m["status"] == "silent" else None
+            out.write(json.dumps(m) + "\n"); out.flush()
+            done += 1
+            if done % 50 == 0:
+                print(done, "/", len(muts), flush=True)
+    for d in dirs:
+        shutil.rmtree(d, ignore_errors=True)
+    report_benign()
+
+def report_benign():
+    rs = [json.loads(l) for l in open(os.path.join(VERIF, "selftest", "benign_results.jsonl"))]
+    by = {}
+    for r in rs:
+        by[r["status"]] = by.get(r["status"], 0) + 1
+    print(len(rs), "behaviour-preserving rewrites:", by)
+    for r in rs:
+        if r["status"] == "alarm":
+            print(" ALARM", r["file"], r["func"], r["line"], r["kind"], r.get("fired"), "tests_pass=%s" % r.get("tests_pass"))
+            for l in r.get("reports", [])[:3]:
+                print("      ", l)
+
 def recheck_one(m):
     d = scratch()
     repo = os.path.join(d, "repo")
     path = os.path.join(repo, m["file"])
     src = open(path, "rb").read()
     try:
-        open(path, "wb").write(src[:m["start"]] + m["new"].encode() + src[m["end"]:])
+        open(path, "wb").write(apply_edits(src, m))
         c = subprocess.run([CHECKER, "all", "--root", repo], env=dict(ENV, VERIF_DIR=os.path.join(d, "verif")), capture_output=True, text=True)
         m["caught_by"] = sorted({l.split("]")[0].split("[")[1] for l in c.stdout.splitlines() if l.startswith("  C") and "[" in l})
         m["first_report"] = next((l.strip()[:240] for l in c.stdout.splitlines() if l.startswith("  C")), "")
@@ -147,6 +221,17 @@ if __name__ == "__main__":
             elif a[0] == "--skip": skip = int(a[1]); a = a[2:]
             else: a = a[1:]
         run(limit, workers, skip)
+    elif len(sys.argv) > 1 and sys.argv[1] == "benign":
+        limit, workers, seed = 0, 10, 1
+        a = sys.argv[2:]
+        while a:
+            if a[0] == "--limit": limit = int(a[1]); a = a[2:]
+            elif a[0] == "--workers": workers = int(a[1]); a = a[2:]
+            elif a[0] == "--seed": seed = int(a[1]); a = a[2:]
+            else: a = a[1:]
+        run_benign(limit, workers, seed)
+    elif len(sys.argv) > 1 and sys.argv[1] == "benign-report":
+        report_benign()
     elif len(sys.argv) > 1 and sys.argv[1] == "recheck":
         recheck(12)
     else:
